@@ -262,6 +262,18 @@ func (fr *Frame) localByName(n string, ec *EvalCtx) (Val, bool) {
 			}
 		}
 	}
+	// captured variables of a function literal: the variable itself (captured by reference, so its current content)
+	for _, fv := range fr.fn.FreeVars {
+		if fv.Name() != n {
+			continue
+		}
+		if av := fr.val(fv); true {
+			if pt, isP := fv.Type().Underlying().(*types.Pointer); isP {
+				return Val{T: ex.load(ec.mem, pt.Elem(), av.T), S: ex.D.sortOf(pt.Elem()), G: pt.Elem()}, true
+			}
+			return av, true
+		}
+	}
 	// a variable assigned on several paths before the point of use: the phi that merges them and dominates that point
 	{
 		var use *ssa.BasicBlock
@@ -699,12 +711,41 @@ func manualFieldPath(t types.Type, name string, depth int) ([]int, types.Type, b
 }
 
 // structValue evaluates e as a struct VALUE (datatype term) if it denotes one.
+// sortPermFn: the permutation function of the n-th sort.Slice call - of the function being executed, or, inside a
+// contract applied at a call site, a function symbol of its own for that call (the callee's witness).
+func (ec *EvalCtx) sortPermFn(n string) string {
+	ex := ec.ex
+	if _, atCall := ec.names["$callee"]; !atCall {
+		return ex.sortPerms[canonName(ec.fr.fn)+"#"+n]
+	}
+	if v, ok := ec.names["$sortperm#"+n]; ok {
+		return v.T
+	}
+	ex.cnt++
+	pf := fmt.Sprintf("sortperm_call%d_%s", ex.cnt, n)
+	ex.declFun(pf, "(Int) Int")
+	ex.declFun(pf+"_inv", "(Int) Int")
+	ec.names["$sortperm#"+n] = Val{T: pf, S: SInt}
+	return pf
+}
+
 func (ec *EvalCtx) structValue(e Expr) (Val, bool) {
 	switch x := e.(type) {
 	case *EIdent:
 		if v, found := ec.lookupName(x.Name); found && v.G != nil {
 			if _, isS := v.G.Underlying().(*types.Struct); isS {
 				return v, true
+			}
+		}
+	case *EIdx:
+		// m[k] where m is a Go map with struct values: the value is not addressable, it is a struct value
+		if id, isId := x.X.(*EIdent); isId {
+			if mv, found := ec.lookupName(id.Name); found && mv.G != nil {
+				if mt, isM := mv.G.Underlying().(*types.Map); isM {
+					if _, isS := mt.Elem().Underlying().(*types.Struct); isS {
+						return ec.evalIdx(x), true
+					}
+				}
 			}
 		}
 	case *ESel:
@@ -948,6 +989,43 @@ func (ec *EvalCtx) evalCall(x *ECall) Val {
 	case "sarr":
 		v := ec.eval(x.Args[0])
 		return Val{T: fmt.Sprintf("(sarr %s)", v.T), S: SInt}
+	case "rangekey": // the key the map range of the current loop produced for this iteration
+		if ec.loop != nil {
+			for b := range ec.loop.body {
+				for _, in := range b.Instrs {
+					if nx, ok := in.(*ssa.Next); ok {
+						if it := ec.fr.iters[nx.Iter]; it != nil && it.isMap {
+							if tp, ok := ec.fr.tuples[nx]; ok && len(tp) == 3 {
+								return tp[1]
+							}
+						}
+					}
+				}
+			}
+		}
+		ec.fail("rangekey() outside a map-range loop body")
+	case "sortperminv": // inverse of sortperm(n, .)
+		lit, ok := x.Args[0].(*ELit)
+		if !ok || len(x.Args) != 2 {
+			ec.fail("sortperminv(n, a): n must be a literal")
+		}
+		pf := ec.sortPermFn(lit.Val)
+		if pf == "" {
+			ec.fail("sortperminv: no sort.Slice#%s executed before this point", lit.Val)
+		}
+		a := ec.coerce(ec.eval(x.Args[1]), SInt)
+		return Val{T: fmt.Sprintf("(%s_inv %s)", pf, a.T), S: SInt, G: types.Typ[types.Int]}
+	case "sortperm": // sortperm(n, a): position before the n-th sort.Slice call of the element that is at position a after it
+		lit, ok := x.Args[0].(*ELit)
+		if !ok || len(x.Args) != 2 {
+			ec.fail("sortperm(n, a): n must be a literal")
+		}
+		pf := ec.sortPermFn(lit.Val)
+		if pf == "" {
+			ec.fail("sortperm: no sort.Slice#%s executed before this point", lit.Val)
+		}
+		a := ec.coerce(ec.eval(x.Args[1]), SInt)
+		return Val{T: fmt.Sprintf("(%s %s)", pf, a.T), S: SInt, G: types.Typ[types.Int]}
 	case "visitedcount": // number of keys the map range of the current loop has produced so far
 		if ec.loop != nil {
 			for b := range ec.loop.body {
